@@ -147,6 +147,24 @@ def leafHasInt : Leaf → Bool
   | .obj sp _ ad => sp.any (fun kv => psHasInt kv.2) || (match ad with | some a => psHasInt a | none => false)
   | .deep sp _ => sp.any (fun kv => match kv.2 with | .prim ps => psHasInt ps | .arr it => psHasInt it)
 
+def psHasNum (ps : PS) : Bool := ps.t = .number
+def leafHasNum : Leaf → Bool
+  | .prim ps => psHasNum ps
+  | .arr it _ _ _ => psHasNum it
+  | .obj sp _ ad => sp.any (fun kv => psHasNum kv.2) || (match ad with | some a => psHasNum a | none => false)
+  | .deep sp _ => sp.any (fun kv => match kv.2 with | .prim ps => psHasNum ps | .arr it => psHasNum it)
+
+def lowerC (c : Char) : Char := if 65 ≤ c.toNat ∧ c.toNat ≤ 90 then Char.ofNat (c.toNat + 32) else c
+
+def hasSub (pat : Str) : Str → Bool
+  | [] => pat.isEmpty
+  | c :: cs => pat.isPrefixOf (c :: cs) || hasSub pat cs
+
+/-- texts outside the modelled part of strconv: digit separators, hex floats, inf/nan -/
+def exoticNumberText (s : Str) : Bool :=
+  let l := s.map lowerC
+  l.contains '_' || hasSub "0x".toList l || hasSub "inf".toList l || hasSub "nan".toList l
+
 def leafKind : Leaf → String
   | .prim _ => "prim" | .arr _ _ _ _ => "arr" | .obj _ _ _ => "obj" | .deep _ _ => "deep"
 
@@ -182,10 +200,13 @@ def handle (j : Json) : Json :=
     (if CookieExplode p then ["CookieExplode"] else []) ++
     (if EnumGoType p then ["EnumGoType"] else []) ++
     (if AddlShadow p then ["AddlShadow"] else []) ++
+    (if QueryObjAbsent p r then ["QueryObjAbsent"] else []) ++
     (if (schLeaves sch).any leafHasInt && (reqStrings r).any (zeroLed false) then ["NonDecimalInt"] else [])
-  let unsupported := (schLeaves sch).any (unsupportedLeaf cell name r)
+  let unsupported := (schLeaves sch).any (unsupportedLeaf cell name r) ||
+    ((reqStrings r).any (fun s => s.contains '_')) ||
+    ((schLeaves sch).any leafHasNum && (reqStrings r).any exoticNumberText)
   let kinds := (schLeaves sch).map leafKind
-  let branches :=
+  let branches := if earlyAbsent cell r then [] else
     [s!"cell.{getStr j "in"}.{getStr j "style"}.{if cell.explode then "x" else "n"}"] ++
     (match sch with | .leaf _ => [] | .allOf _ => ["comp.allOf"] | .anyOf _ => ["comp.anyOf"] | .oneOf _ => ["comp.oneOf"]) ++
     (kinds.eraseDups.map (fun k => s!"shape.{k}")) ++
